@@ -67,7 +67,7 @@ func (c *Cell) Update() {
 		c.str = o.str
 		c.width = o.width
 		c.height = o.height
-		c.empty = o.empty
+		c.empty = o.empty || o.str == ""
 		return
 
 	// After this point, MUST set .str
